@@ -291,6 +291,23 @@ type c03hostile struct {
 	Close   bool
 }
 
+// c03AllocCeiling: what one case (<= 6 hostile connections, <= 3 well-behaved ones, declared fork sizes <= 1 MiB, a
+// world of a few small files) may allocate in total, with a wide margin: on the repaired tree the largest case of a thorough shard allocated 58 MiB.
+const c03AllocCeiling = 512 << 20
+
+var c03MaxAlloc uint64
+
+func c03HostileBytes(hs []c03hostile) int {
+	n := 0
+	for _, h := range hs {
+		n += len(h.Hs) + len(h.Login) + len(h.XStream)
+		for _, m := range h.Msgs {
+			n += len(m)
+		}
+	}
+	return n
+}
+
 func c03prop(ev *evid.Rec) func(rt *rapid.T) {
 	return func(rt *rapid.T) {
 		ngood := rapid.IntRange(1, 3).Draw(rt, "ngood")
@@ -355,6 +372,22 @@ func c03prop(ev *evid.Rec) func(rt *rapid.T) {
 			}
 		}()
 		defer close(done)
+		// memory: a few hundred hostile bytes must not make the server allocate gigabytes (an allocation sized by a
+		// length field of the input is how a byte sequence gets the process killed by the kernel)
+		var m0 runtime.MemStats
+		runtime.ReadMemStats(&m0)
+		defer func() {
+			var m1 runtime.MemStats
+			runtime.ReadMemStats(&m1)
+			d := m1.TotalAlloc - m0.TotalAlloc
+			if d > c03MaxAlloc {
+				c03MaxAlloc = d
+				ev.SetExtra("largest_allocation_of_one_case_MiB", int(d>>20))
+			}
+			if d > c03AllocCeiling {
+				rt.Fatalf("serving %d hostile connections (%d bytes of hostile input in total) made the process allocate %d MiB: %s", len(hs), c03HostileBytes(hs), d>>20, wdesc)
+			}
+		}()
 		inWorld(rt, hlsim.Options{Agreement: "agreement", Board: "board\r", Accounts: []hlsim.AccountSpec{
 			acct("good", "Good", "gpw", allAccess), acct("spare", "Spare", "spw", hlref.Access{}),
 			{Login: "hostile", Name: "Hostile", Password: "hpw", Access: func() hlref.Access {
